@@ -4,6 +4,7 @@ from __future__ import annotations
 import ast
 import itertools
 import operator
+import re
 from fractions import Fraction
 from typing import Dict, List, Optional, Sequence, Tuple
 
@@ -75,7 +76,9 @@ def check(prog: Program, tier: str) -> Result:
     _r17_17(prog, res)
     _r17_18(prog, res)
     _r17_19(prog, res)
-    res.floors.update({"R17.19": 1, "R17.18": 1, "R17.17": 1, "R17.16": 1, "R17.15": 2, "R17.14": 10, "R17.13": 2, "R17.12": 1, "R17.11": 3, "R17.10": 3, "R17.9": 3, "R17.1": 12, "R17.2": 10, "R17.3": 4, "R17.4": 40, "R17.5": 6, "R17.6": 4, "R17.7": 2, "R17.8": 1})
+    _r17_20(prog, res)
+    _r17_21(prog, res)
+    res.floors.update({"R17.20": 1, "R17.21": 1, "R17.19": 1, "R17.18": 1, "R17.17": 1, "R17.16": 1, "R17.15": 2, "R17.14": 10, "R17.13": 2, "R17.12": 1, "R17.11": 3, "R17.10": 3, "R17.9": 3, "R17.1": 12, "R17.2": 10, "R17.3": 4, "R17.4": 40, "R17.5": 6, "R17.6": 4, "R17.7": 2, "R17.8": 1})
     res.analysed["bound_claims"] = n_claims
     return res
 
@@ -579,6 +582,130 @@ def _r17_19(prog: Program, res: Result) -> None:
                        "were joined by `and`, and the expression becomes `x < 1 or y > 0`")
     if n == 0:
         res.undecided("R17.19", "pyrefact/symbolic_math.py:0", "symbolic_math", "flattening of nested and/or expressions", "none found (simplify_boolean_expressions is expected)")
+
+
+# ------------------------------------------------------------------------------------------------ R17.20 / R17.21
+_INFIX_SEPARATOR = re.compile(r"^\s*(\*\*|//|<<|>>|[-+*/%@|&^]|and|or)\s*$")
+
+
+def _r17_20(prog: Program, res: Result) -> None:
+    """Code assembled as TEXT obeys the grammar, not the tree it was made from: `" + ".join(unparse(x) for x in xs)` over `1 << 2` and `3`
+    is `1 << 2 + 3`, which is `1 << 5`.  Every join of unparsed code with an infix operator as the separator puts each operand between
+    parentheses (the element is an f-string / concatenation that opens with `(` and closes with `)`), the text-level twin of R17.14."""
+    n = 0
+    for fn in prog.funcs.values():
+        for c in prog.calls_in(fn):
+            if not (isinstance(c.func, ast.Attribute) and c.func.attr == "join" and isinstance(c.func.value, ast.Constant) and isinstance(c.func.value.value, str)
+                    and _INFIX_SEPARATOR.match(c.func.value.value) and len(c.args) == 1):
+                continue
+            g = c.args[0]
+            if not (isinstance(g, (ast.GeneratorExp, ast.ListComp)) and any(isinstance(x, ast.Call) and norm(x.func).endswith("unparse") for x in ast.walk(g.elt))):
+                continue
+            n += 1
+            e = g.elt
+            ok = False
+            if isinstance(e, ast.JoinedStr) and len(e.values) >= 3:
+                a, b = e.values[0], e.values[-1]
+                ok = isinstance(a, ast.Constant) and str(a.value).lstrip().startswith("(") and isinstance(b, ast.Constant) and str(b.value).rstrip().endswith(")")
+            elif isinstance(e, ast.BinOp) and isinstance(e.op, ast.Add):
+                parts = []
+                todo = [e]
+                while todo:
+                    x = todo.pop()
+                    if isinstance(x, ast.BinOp) and isinstance(x.op, ast.Add):
+                        todo += [x.right, x.left]
+                    else:
+                        parts.append(x)
+                ok = len(parts) >= 3 and isinstance(parts[0], ast.Constant) and str(parts[0].value).lstrip().startswith("(") \
+                    and isinstance(parts[-1], ast.Constant) and str(parts[-1].value).rstrip().endswith(")")
+            res.decide(ok, "R17.20", fn.loc(c), fn.fq, f"{short(c, 80)} # operands joined as text",
+                       "every operand stands between parentheses" if ok else
+                       f"unparsed operands are joined with `{c.func.value.value.strip()}` as they are: an operand whose operator binds weaker is regrouped by the parser "
+                       "(`sum([1 << 2, 3])` became `1 << 2 + 3`, which is 32, not 7)")
+    if n == 0:
+        res.ok("R17.20", "pyrefact/", "package", "joins of unparsed code with an infix separator", "none", trivial=True)
+
+
+def _refuses_bitxor(prog: Program, fn: Func, test: ast.AST) -> bool:
+    """The test is true for every candidate that contains a `^`: it is the search itself, or a disjunction with the search as one operand
+    (a conjunction refuses only some of them)."""
+    if isinstance(test, ast.BoolOp):
+        return isinstance(test.op, ast.Or) and any(_refuses_bitxor(prog, fn, v) for v in test.values)
+    if isinstance(test, ast.UnaryOp) or isinstance(test, ast.IfExp):
+        return False
+    return _reads_bitxor(prog, fn, test)
+
+
+def _reads_bitxor(prog: Program, fn: Func, test: ast.AST) -> bool:
+    for x in ast.walk(test):
+        if isinstance(x, ast.Attribute) and x.attr == "BitXor":
+            return True
+        if isinstance(x, (ast.Name, ast.Attribute)) and not (isinstance(x, ast.Attribute) and norm(x).startswith("ast.")):
+            try:
+                d = norm(x)
+                v = prog.const(fn.mod.name, d) if "." not in d else prog.const(d.split(".")[-2], d.split(".")[-1])
+            except (AnalysisError, Unresolvable, KeyError):
+                continue
+            if any(isinstance(t, AstClass) and t.name == "BitXor" for t in (v if isinstance(v, (set, frozenset, tuple, list)) else [v])):
+                return True
+    return False
+
+
+def _r17_21(prog: Program, res: Result) -> None:
+    """sympy reads text by its own grammar: `^` is a power there (sympify) or a logical xor (parse_expr), never python's bitwise xor.  A rule
+    from which a text reader of sympy is reachable (sympy.simplify / sympify of text made by unparse, parse_expr) refuses code that
+    contains `ast.BitXor` before the first call that can reach the reader: `if <search of the candidate for ast.BitXor>: continue`, in the loop
+    over the candidates and above that call (the test reads the loop variable; a conjunction with something else refuses only a part)."""
+    from ..callgraph import CallGraph
+    from ..defuse import bindings
+    sinks: Dict[Tuple[str, str], ast.AST] = {}
+    for fn in prog.funcs.values():
+        for c in prog.calls_in(fn):
+            d = norm(c.func)
+            if d.endswith("parse_expr") and d.startswith("sympy") and c.args:
+                sinks.setdefault(fn.key, c)
+            elif d in ("sympy.simplify", "sympy.sympify") and c.args and isinstance(c.args[0], ast.Name):
+                if any(v is not None and any(isinstance(x, ast.Call) and norm(x.func).endswith("unparse") for x in ast.walk(v)) for _s, v in bindings(fn).get(c.args[0].id, [])):
+                    sinks.setdefault(fn.key, c)
+    if not sinks:
+        res.undecided("R17.21", "pyrefact/symbolic_math.py:0", "symbolic_math", "text readers of sympy", "none found (_simplify_math and _parse_sympy_expr are expected)")
+        return
+    cg = CallGraph(prog)
+    sink_funcs = set(sinks)
+    # a function decorated with a repository decorator whose wrapper reads text hands its own result to the reader
+    for fn in prog.funcs.values():
+        for d in fn.node.decorator_list:
+            r = prog.resolve_call(d.func if isinstance(d, ast.Call) else d, fn.mod, fn) if isinstance(d, (ast.Name, ast.Attribute, ast.Call)) else None
+            if r and r[0] == "fn" and cg.reachable([r[1].key]) & set(sinks):
+                sink_funcs.add(fn.key)
+    n = 0
+    for fn in prog.funcs.values():
+        if not fn.is_fix:
+            continue
+        reaching = []
+        for c in prog.calls_in(fn):
+            r = prog.resolve_call(c.func, fn.mod, fn)
+            if r and r[0] == "fn" and (cg.reachable([r[1].key]) & sink_funcs):
+                reaching.append(c)
+        if not reaching:
+            continue
+        n += 1
+        first = min(reaching, key=lambda c: (c.lineno, c.col_offset))
+        loops = [lp for lp in walk_own(fn.node) if isinstance(lp, ast.For) and any(x is first for x in ast.walk(lp))]
+        guard = None
+        for lp in loops:
+            for st in lp.body:
+                if st.lineno >= first.lineno:
+                    break
+                if isinstance(st, ast.If) and not st.orelse and st.body and isinstance(st.body[-1], (ast.Continue, ast.Return)) and _refuses_bitxor(prog, fn, st.test) \
+                        and {x.id for x in ast.walk(lp.target) if isinstance(x, ast.Name)} & {x.id for x in ast.walk(st.test) if isinstance(x, ast.Name)}:
+                    guard = st
+        res.decide(guard is not None, "R17.21", fn.loc(first), fn.fq, f"{short(first, 60)} # code handed to sympy as text",
+                   f"code with a `^` is refused at line {guard.lineno}, above the first call that reaches a text reader of sympy" if guard is not None else
+                   f"{len(reaching)} call(s) of this rule reach a text reader of sympy ({', '.join(sorted(q for _m, q in sinks))}) and nothing above them refuses code that contains "
+                   "ast.BitXor: sympy reads `7 ^ 3` as 7**3 (`sum([7 ^ 3, 4])` became 347, is 8)")
+    if n == 0:
+        res.undecided("R17.21", "pyrefact/symbolic_math.py:0", "symbolic_math", "rules that reach a text reader of sympy", "none found (simplify_math_iterators is expected)")
 
 
 # ------------------------------------------------------------------------------------------------ R17.18
@@ -1920,6 +2047,17 @@ def _run_branch(stmts, state, c, cvar) -> None:
 from ..selftest import Variant  # noqa: E402
 
 VARIANTS = [
+    Variant("sum-terms-joined-without-parentheses", "FIRE", "symbolic_math",
+            "    expr = \" + \".join(f\"({core.unparse(node).strip()})\" for node in values)\n", "    expr = \" + \".join(core.unparse(node).strip() for node in values)\n", "R17.20"),
+    Variant("sum-terms-parenthesised-by-concatenation", "SILENT", "symbolic_math",
+            "    expr = \" + \".join(f\"({core.unparse(node).strip()})\" for node in values)\n", "    expr = \" + \".join(\"(\" + core.unparse(node).strip() + \")\" for node in values)\n"),
+    Variant("xor-handed-to-sympy", "FIRE", "symbolic_math",
+            "        if any(core.walk(node, ast.BitXor)):\n            continue  # sympy reads the code as text, and in its grammar 7 ^ 3 is 7 ** 3\n", "", "R17.21"),
+    Variant("xor-refused-below-the-first-reader", "FIRE", "symbolic_math",
+            "        if any(core.walk(node, ast.BitXor)):\n            continue  # sympy reads the code as text, and in its grammar 7 ^ 3 is 7 ** 3\n\n        arg = node.args[0]\n",
+            "        arg = node.args[0]\n        if core.match_template(arg, basic_collection_template) and any(core.walk(node, ast.BitXor)):\n            continue\n", "R17.21"),
+    Variant("xor-refused-with-isinstance", "SILENT", "symbolic_math",
+            "        if any(core.walk(node, ast.BitXor)):\n            continue  # sympy", "        if any(isinstance(part, (ast.BitXor, ast.MatMult)) for part in ast.walk(node)):\n            continue  # sympy"),
     Variant("dropped-condition-in-a-transaction-of-its-own", "FIRE", "symbolic_math", "            yield condition, ast.Constant(value=True, kind=None), transaction\n", "            yield condition, ast.Constant(value=True, kind=None)\n", "R17.17"),
     Variant("truth-value-fold-for-any-condition", "FIRE", "fixes", "        if _is_boolean_valued(template_match.condition):\n            yield tuple(rewrite)\n", "        if template_match.condition:\n            yield tuple(rewrite)\n", "R17.15"),
     Variant("names-count-as-boolean-valued", "FIRE", "fixes", "    template = (\n        ast.Compare,\n        ast.UnaryOp(op=ast.Not),", "    template = (\n        ast.Compare,\n        ast.Name,\n        ast.UnaryOp(op=ast.Not),", "R17.15"),
